@@ -14,7 +14,7 @@ from typing import Dict, List, Optional, Tuple
 import common
 import spec as S
 
-GEN_VERSION = "22"
+GEN_VERSION = "24"
 
 STRUM_DERIVES = ["EnumString", "Display", "AsRefStr", "IntoStaticStr", "VariantNames", "EnumIter", "EnumCount", "FromRepr",
                  "VariantArray", "EnumDiscriminants", "EnumIs", "EnumTryAs", "EnumMessage", "EnumProperty", "EnumTable",
@@ -476,6 +476,10 @@ def family_placeholders(start: int) -> List[E]:
          ("NamedEsc", "named", [("a", "u8")], "{{a}}={a}"), ("NamedFixed", "named", [("a", "u8")], "fixed {{}} name"), ("Unit", "unit", [], "plain unit")],
         [("Width", "tuple", ["u8", "usize"], "{0:>1$}"), ("Dbg", "tuple", ["u8", "Txt"], "{1:?}/{0:#x}"), ("Last", "tuple", ["Txt", "u8", "u8"], "{2}-{1}-{0}")],
     ]
+    dvs = [V("Known", attrs=[["to_string = %s" % rstr("known")]]), V("Unknown", "tuple", [(None, "Txt")], attrs=[["default", "to_string = %s" % rstr("unknown({0})")]])]
+    out.append(E("Plh%04d" % (start + 60), "placeholders", ["Display", "EnumString"], dvs, std_derives=["Clone", "Debug"]))
+    dvs = [V("Known", attrs=[["to_string = %s" % rstr("known")]]), V("Other", "named", [("raw", "Txt")], attrs=[["to_string = %s" % rstr("other[{raw:>5}]"), "default"]])]
+    out.append(E("Plh%04d" % (start + 61), "placeholders", ["Display", "EnumString"], dvs, std_derives=["Clone", "Debug"]))
     ser_sets = [("SerNamed", "named", [("sat", "u8")], ['serialize = "s"', 'serialize = "sat={sat:03}%"']), ("SerTuple", "tuple", ["u8", "u8"], ['serialize = "{1}/{0} long"', 'serialize = "t"']),
                 ("SerFixed", "tuple", ["u8"], ['serialize = "fixed one"', 'serialize = "f"']), ("SerUnit", "unit", [], ['serialize = "unit name"'])]
     vs = []
@@ -621,6 +625,87 @@ def family_casing(rng: random.Random, start: int, idents: List[str], styles: Lis
             attrs = [["serialize_all = %s" % rstr(style)]] if style else []
             out.append(E("Cas%04d" % eid, "casing", ["VariantNames", "Display", "EnumString", "AsRefStr", "IntoStaticStr", "EnumMessage", "EnumIs"], vs, attrs=attrs))
             eid += 1
+    return out
+
+
+def family_idlen(start: int) -> List[E]:
+    """Family C2: enums in which *every* identifier contains underscores, so that under the styles that drop or merge them the
+    spelling is shorter than the identifier (and under separator styles the same length); plus leading / trailing / doubled
+    underscores. Anything the generator derives from the identifier instead of the spelling (a length bound, a first
+    character, a sort key) differs from the spelling here for all variants at once."""
+    out = []
+    eid = start
+    sets = [["NOT_FOUND", "BAD_REQUEST", "PRECONDITION_FAILED", "Add_Assign", "Shift_Left_Assign"],
+            ["_Unknown", "Something__Longer", "Trailing_", "__Both__", "a_b_c"]]
+    for style in [None] + list(S.DOCUMENTED_STYLES):
+        for names in sets:
+            st = S.STYLE_TABLE[style] if style else None
+            cased = [S.case(n, st) for n in names]
+            if len(set(cased)) != len(cased) or "" in cased:
+                continue
+            attrs = [["serialize_all = %s" % rstr(style)]] if style else []
+            out.append(E("Idl%04d" % eid, "idlen", ["VariantNames", "Display", "EnumString", "AsRefStr", "IntoStaticStr"], [V(n) for n in names], attrs=attrs))
+            eid += 1
+            out.append(E("Idl%04d" % eid, "idlen", ["EnumString", "Display"], [V(n) for n in names], attrs=attrs + [["ascii_case_insensitive"]]))
+            eid += 1
+    return out
+
+
+def family_shared_values(start: int) -> List[E]:
+    """Family D2: values shared between variants and keys that collide under a normalisation -- whatever the generator merges,
+    de-duplicates, sorts or hoists by value must still answer per variant: identical `message` literals on variants that do /
+    do not have a `detailed_message`; identical documentation; property keys that differ only in case or separator style;
+    4, 5 and 6 same-type properties per variant declared in non-sorted order and split over several props(..) groups."""
+    out = []
+    eid = start
+    vs = [V("Read", attrs=[["message = %s" % rstr("I/O error")]]),
+          V("Write", attrs=[["message = %s" % rstr("I/O error"), "detailed_message = %s" % rstr("the disk is full")]]),
+          V("Seek", "tuple", [(None, "u8")], attrs=[["detailed_message = %s" % rstr("the disk is full")]]),
+          V("Sync", attrs=[["message = %s" % rstr("I/O error"), "detailed_message = %s" % rstr("I/O error")]]),
+          V("Close", "named", [("a", "u8")], attrs=[["message = %s" % rstr("closed")]]),
+          V("Gone", attrs=[["message = %s" % rstr("I/O error"), "disabled"]]),
+          V("Last", attrs=[["message = %s" % rstr("closed"), "detailed_message = %s" % rstr("closed for good")]])]
+    for v in vs[:3]:
+        v.docs = [" same documentation"]
+    vs[4].docs = [" same documentation"]
+    out.append(E("Shv%04d" % eid, "shared_values", ["EnumMessage", "EnumString", "EnumIter"], vs))
+    eid += 1
+    vs = [V("Mathematics", attrs=[["props(Teacher = %s, room = %s)" % (rstr("Mr.Smith"), rstr("101"))], ["props(maxSize = 30, max_size = 31)"]]),
+          V("History", attrs=[["props(teacher = %s)" % rstr("Mrs.Jones")], ["props(Room = %s, MAX_SIZE = 7)" % rstr("7b")], ["props(open = true, Open = false)"]]),
+          V("Art", "tuple", [(None, "u8")], attrs=[["props(teacher = %s, Teacher = %s, TEACHER = %s)" % (rstr("a"), rstr("b"), rstr("c"))]]),
+          V("Gym", attrs=[["disabled", "props(teacher = %s)" % rstr("nobody")]]), V("Plain")]
+    out.append(E("Shv%04d" % eid, "shared_values", ["EnumProperty", "EnumIter"], vs))
+    eid += 1
+    vs = [V("Box4", attrs=[["props(width = 4, height = 3, depth = 2, area = 12)"]]),
+          V("Box5", attrs=[["props(width = 4, height = 3)"], ["props(depth = 2, area = 12, zeta = 1)"]]),
+          V("Box6", "named", [("a", "u8")], attrs=[["props(w = %s, h = %s, d = %s)" % (rstr("4"), rstr("3"), rstr("2"))], ["props(a = %s, z = %s, m = %s)" % (rstr("12"), rstr("1"), rstr("0"))]]),
+          V("Flags4", attrs=[["props(yes = true, no = false, maybe = true, always = false)"]]),
+          V("Mixed", attrs=[["props(width = 4, name = %s, on = true, height = 3, title = %s, off = false, depth = 2, area = 12)" % (rstr("n"), rstr("t"))]]),
+          V("Sorted4", attrs=[["props(a = 1, b = 2, c = 3, d = 4)"]]), V("Three", attrs=[["props(c = 3, b = 2, a = 1)"]])]
+    out.append(E("Shv%04d" % eid, "shared_values", ["EnumProperty"], vs))
+    eid += 1
+    # serializations that share a long prefix (case-sensitive, custom error) / a long suffix
+    for k, (pre, suf, extra) in enumerate([("app.user.", "", []), ("", "_changed_event", []), ("color_", "", [["ascii_case_insensitive"]])]):
+        vs = [V(n, attrs=[["serialize = %s" % rstr(pre + n.lower() + suf)]]) for n in ["Created", "Deleted", "Renamed", "Banned"]]
+        e = E("Shv%04d" % eid, "shared_values", ["EnumString", "Display"], vs,
+              attrs=[["parse_err_ty = ShvErr%d" % k, "parse_err_fn = shv_err_%d" % k]] + extra, std_derives=["Clone", "Debug", "PartialEq"])
+        e.prelude = "#[derive(Debug, PartialEq)] pub struct ShvErr%d(pub Txt);\npub fn shv_err_%d(s: &str) -> ShvErr%d { ShvErr%d(Txt::from(s)) }" % (k, k, k, k)
+        out.append(e)
+        eid += 1
+        out.append(E("Shv%04d" % eid, "shared_values", ["EnumString", "Display"], [V(v.name, "unit", [], [list(a) for a in v.attrs]) for v in vs] + [V("Other", "tuple", [(None, "Txt")], attrs=[["default"]])],
+                     attrs=extra, std_derives=["Clone", "Debug", "PartialEq"]))
+        eid += 1
+    return out
+
+
+def family_snake_collisions(start: int) -> List[E]:
+    """Family B5: a disabled variant whose snake_case name equals an enabled variant's (IoError / IOError): per-variant items keyed
+    by the snake-cased name (table slots, is_* / try_as_* methods) exist for the enabled one only."""
+    out = []
+    vs = [V("IoError"), V("IOError", attrs=[["disabled"]]), V("Http2"), V("HTTP2", attrs=[["disabled"]]), V("Plain"), V("plain", attrs=[["disabled"]]), V("Last")]
+    out.append(E("Snk%04d" % start, "snake_collisions", ["EnumTable", "EnumIs", "EnumIter", "EnumCount", "VariantArray"], vs, std_derives=["Clone", "Copy", "Debug", "PartialEq"]))
+    vs2 = [V("IoError", "tuple", [(None, "u8")]), V("IOError", "tuple", [(None, "u8")], attrs=[["disabled"]]), V("A1", "tuple", [(None, "i32"), (None, "u8")]), V("a_1", "tuple", [(None, "i32"), (None, "u8")], attrs=[["disabled"]])]
+    out.append(E("Snk%04d" % (start + 1), "snake_collisions", ["EnumTryAs", "EnumIs"], vs2))
     return out
 
 
@@ -860,6 +945,11 @@ def family_discriminants(rng: random.Random, start: int) -> List[E]:
         ([["allow(dead_code)", "derive(IntoStaticStr, AsRefStr)", "strum(prefix = \"d_\")"]], "pub"),
         ([["derive(Display, EnumString)", "strum(serialize_all = \"kebab-case\")", "strum(ascii_case_insensitive)"]], "pub"),
         ([["derive(Display, EnumString, VariantNames)"], ["strum(serialize_all = \"SCREAMING_SNAKE_CASE\")"], ["strum(prefix = \"x/\")", "allow(dead_code)", "allow(unused)"]], "pub"),
+        # the source enum's own visibility, without a vis(..) override
+        ([], "pub(crate)"),
+        ([["derive(EnumIter)"]], "pub(super)"),
+        ([], ""),
+        ([["name(InCrate12)"]], "pub(in crate)"),
     ]
     for ci, (dattrs, vis) in enumerate(configs):
         vs = base()
@@ -872,7 +962,10 @@ def family_discriminants(rng: random.Random, start: int) -> List[E]:
         out.append(e)
         eid += 1
     # explicit discriminants + repr are mirrored
-    for rp, discs in [("u8", ["1", None, "7", None, "200"]), ("i16", ["-4", None, None, "300", None]), ("u32", [None, "1 << 4", None, None, None]), ("i64", ["KM2 as i64", None, "5", None, None])]:
+    for rp, discs in [("u8", ["1", None, "7", None, "200"]), ("i16", ["-4", None, None, "300", None]), ("u32", [None, "1 << 4", None, None, None]), ("i64", ["KM2 as i64", None, "5", None, None]),
+                      # unary operators other than minus, parentheses, casts, hex / octal / binary / suffixed literals
+                      ("u8", ["2", None, "!0", "7", None]), ("i16", ["!10", None, None, "(300)", None]), ("u16", ["0x10", None, "0b1000_0000", "0o777", "40_000u16"]),
+                      ("i32", ["-(3)", None, "7 as i32", None, "1 << 20"])]:
         vs = base()
         for v, d in zip(vs, discs):
             v.disc = d
@@ -943,6 +1036,9 @@ def generate(tier: str, seed: int) -> List[E]:
     es += family_messages(rng, 1, 24 if tier == "quick" else 240)
     es += family_discriminants(rng, 1)
     es += family_try_as(1)
+    es += family_idlen(1)
+    es += family_snake_collisions(1)
+    es += family_shared_values(1)
     if tier == "thorough":
         ids = all_short_identifiers(5)
         big = family_casing(rng, 5000, ids, [s for s in S.DOCUMENTED_STYLES], per_enum=24)
@@ -1085,6 +1181,79 @@ def diag_derive(d: dict) -> Optional[str]:
     return m.group(1) if m else None
 
 
+def attribute_by_split(root: str, by_mod: Dict[str, "E"], failures: List["CompileFailure"]) -> List["CompileFailure"]:
+    """A compile failure whose spans carry no expansion information (tokens of the generated code that keep the user's
+    spans, e.g. an impl header without its where clause) cannot be attributed to a derive from the diagnostic. The enum is
+    then compiled once per strum derive, alone, in a side crate; the derives whose copy fails own the failure."""
+    todo = [f for f in failures if f.derive is None and f.crate.startswith("c_std_") and f.module in by_mod]
+    if not todo:
+        return failures
+    import copy as _copy
+    import subprocess
+    side = os.path.join(root, "split")
+    shutil.rmtree(side, ignore_errors=True)
+    os.makedirs(os.path.join(side, "src"))
+    lib = ["#![allow(dead_code, unused_imports, deprecated, non_camel_case_types)]", "pub mod prelude {" + PRELUDE.replace("STRUM", "::strum") + "}"]
+    names = {}
+    single = {}
+    for f in todo:
+        e = by_mod[f.module]
+        ds = [d for d in e.derives if d in STRUM_DERIVES]
+        if len(ds) == 1:
+            single[f.module] = ds[0]
+            continue
+        for d in ds:
+            e2 = _copy.copy(e)
+            e2.derives = [d]
+            mod = "%s__%s" % (f.module, d.lower())
+            names[mod] = (f.module, d)
+            with open(os.path.join(side, "src", mod + ".rs"), "w") as fh:
+                fh.write(e2.render())
+            lib.append("pub mod %s;" % mod)
+    out = []
+    failing: Dict[str, set] = {}
+    if names:
+        with open(os.path.join(side, "src", "lib.rs"), "w") as fh:
+            fh.write("\n".join(lib) + "\n")
+        with open(os.path.join(side, "Cargo.toml"), "w") as fh:
+            fh.write("[package]\nname = \"c_split\"\nversion = \"0.0.0\"\nedition = \"2021\"\n\n[features]\ndefault = [\"std\"]\nstd = []\nrenamed = []\nshadow = []\n\n"
+                     "[dependencies]\nstrum = { path = \"%s/strum\", features = [\"derive\", \"phf\"] }\n\n[workspace]\n" % common.REPO)
+        lock_src = os.path.join(common.REPO, "Cargo.lock")
+        if os.path.exists(lock_src):
+            shutil.copy(lock_src, os.path.join(side, "Cargo.lock"))
+        env = common.cargo_env({"CARGO_TARGET_DIR": os.path.join(root, "target_split")})
+        r = subprocess.run(["cargo", "+nightly", "check", "--offline", "--message-format=json"], cwd=side, env=env, stdout=subprocess.PIPE, stderr=subprocess.PIPE, text=True)
+        for line in r.stdout.splitlines():
+            try:
+                d = json.loads(line)
+            except ValueError:
+                continue
+            m = d.get("message") if d.get("reason") == "compiler-message" else None
+            if not m or m.get("level") != "error":
+                continue
+            for sp in m.get("spans", []):
+                chain = sp
+                guard = 0
+                while chain and guard < 12:
+                    mm = re.search(r"src/([a-z0-9_]+__[a-z0-9_]+)\.rs$", chain.get("file_name", ""))
+                    if mm and mm.group(1) in names:
+                        orig, d_ = names[mm.group(1)]
+                        failing.setdefault(orig, set()).add(d_)
+                    chain = (chain.get("expansion") or {}).get("span")
+                    guard += 1
+        shutil.rmtree(os.path.join(root, "target_split"), ignore_errors=True)
+    for f in failures:
+        if f in todo and f.module in single:
+            f.derive = single[f.module]
+            out.append(f)
+        elif f in todo and failing.get(f.module):
+            for d_ in sorted(failing[f.module]):
+                out.append(CompileFailure(f.crate, f.module, f.message, f.code, f.rendered, d_))
+        else:
+            out.append(f)
+    return out
+
+
 _LAST: Dict[str, object] = {}
 
 
@@ -1160,6 +1329,7 @@ def extract(tier: str, seed: int, configs: Optional[List[str]] = None, need=None
             u["_config"] = u["crate"].split("_")[1] if u["crate"].startswith("c_") else "?"
             units.append(u)
         by_mod = {module_name(e): e for e in es}
+        failures = attribute_by_split(root, by_mod, failures)
         _LAST["failures"] = failures
         _LAST["enums"] = es
         _LAST["by_mod"] = by_mod
